@@ -92,6 +92,24 @@ func c11cCases() []c11cCase {
 				m.Results = []*pb.Result{{Cell: verifsim.CellsToPB([]verifsim.KV{c11cKV("zz", "v")})}}
 			}
 		})
+		metrics := func(name *string, v *int64) *pb.ScanMetrics {
+			return &pb.ScanMetrics{Metrics: []*pb.NameInt64Pair{{Name: name, Value: v}}}
+		}
+		add("scan/unsolicited-scan-metrics", "Scan", false, api, func(r *verifsim.Response) {
+			if m := scanResp(r); m != nil {
+				m.ScanMetrics = metrics(proto.String("ROWS_SCANNED"), proto.Int64(1))
+			}
+		})
+		add("scan/scan-metrics-entry-without-name-and-value", "Scan", false, api, func(r *verifsim.Response) {
+			if m := scanResp(r); m != nil {
+				m.ScanMetrics = metrics(nil, nil)
+			}
+		})
+		add("scan/heartbeat-flag-with-results", "Scan", false, api, func(r *verifsim.Response) {
+			if m := scanResp(r); m != nil {
+				m.HeartbeatMessage = proto.Bool(true)
+			}
+		})
 		add("scan/cells-of-two-rows-in-one-result", "Scan", false, api, func(r *verifsim.Response) {
 			if m := scanResp(r); m != nil && len(m.CellsPerResult) > 0 {
 				r.CellBlock = append(append([]byte{}, r.CellBlock...), verifsim.EncodeKVs([]verifsim.KV{c11cKV("zzz", "v")})...)
@@ -132,6 +150,19 @@ func c11cCases() []c11cCase {
 	add("get/no-result", "Get", false, "get", func(r *verifsim.Response) {
 		if m, ok := r.Msg.(*pb.GetResponse); ok {
 			m.Result = nil
+			r.CellBlock = nil
+		}
+	})
+	add("put/result-with-cells-unsolicited", "Mutate", false, "put", func(r *verifsim.Response) {
+		if m, ok := r.Msg.(*pb.MutateResponse); ok {
+			m.Result = &pb.Result{AssociatedCellCount: proto.Int32(1)}
+			m.Processed = proto.Bool(true)
+			r.CellBlock = verifsim.EncodeKVs([]verifsim.KV{c11cKV("put", "v")})
+		}
+	})
+	add("get/exists-flag-without-cells", "Get", false, "get", func(r *verifsim.Response) {
+		if m, ok := r.Msg.(*pb.GetResponse); ok {
+			m.Result = &pb.Result{Exists: proto.Bool(true), Stale: proto.Bool(true), Partial: proto.Bool(true)}
 			r.CellBlock = nil
 		}
 	})
@@ -215,6 +246,11 @@ func c11cCases() []c11cCase {
 				m.CellsPerResult = []uint32{0}
 				m.PartialFlagPerResult = []bool{false}
 				r.CellBlock = nil
+			}
+		})
+		add("meta/unsolicited-scan-metrics", "Scan", true, api, func(r *verifsim.Response) {
+			if m := scanResp(r); m != nil {
+				m.ScanMetrics = &pb.ScanMetrics{Metrics: []*pb.NameInt64Pair{{Name: proto.String("ROWS_SCANNED"), Value: proto.Int64(1)}}}
 			}
 		})
 		add("meta/more-partial-flags-than-results", "Scan", true, api, func(r *verifsim.Response) {
